@@ -25,7 +25,11 @@ def gen_lines(rnd, prefix):
         if r < 0.25:
             out.append({"kind": "head", "text": rnd.choice(heads)})
         elif r < 0.35:
-            out.append({"kind": "remark", "text": rnd.choice(["note", "x " + prefix.strip(), "text"])})
+            # plain remarks, also ones that begin like the prefix without being headings (prefix "= ": "=", "==x")
+            cand = ["note", "x " + prefix.strip(), "text", prefix.strip(), prefix.strip() * 2 + "x", prefix.strip() + "note",
+                    prefix.strip()]
+            cand = [t for t in cand if t and not t.startswith(prefix)]
+            out.append({"kind": "remark", "text": rnd.choice(cand)})
         else:
             out.append({"kind": "ace", "src_n": rnd.choice([None, None, 0, 1, 2, 5]), "dst_n": rnd.choice([None, None, None, 0, 3])})
     return out
@@ -112,7 +116,7 @@ def correspond(ctx):
         lines = gen_lines(rnd, prefix)
         if not lines:
             continue
-        how = rnd.choice(["shuffle", "reverse", "sort_reverse", "sort_key"])
+        how = rnd.choice(["shuffle", "reverse", "sort_reverse", "sort_key", "ungroup_assign", "ungroup_assign"])
         sd = rnd.getrandbits(20)
         meta = {"k": "sort", "platform": plat, "prefix": prefix, "lines": lines, "how": how, "seed": sd}
 
@@ -122,7 +126,16 @@ def correspond(ctx):
             want_keys = [[it.sequence, i] for i, it in enumerate(acl.items)]
             numbered = flat_notes(acl)
             r2 = random.Random(sd)
-            if how == "shuffle":
+            if how == "ungroup_assign":
+                # the numbered ACL is ungrouped, its item list is permuted and ASSIGNED (setter), then sorted
+                acl.ungroup()
+                want_keys = [[it.sequence, i] for i, it in enumerate(acl.items)]
+                items = list(acl.items)
+                r2.shuffle(items)
+                acl.items = items
+                if len(acl.items) != len(items) or any(it.__class__.__name__ == "AceGroup" for it in acl.items):
+                    raise AssertionError("assigning items to an ungrouped ACL re-grouped it")
+            elif how == "shuffle":
                 r2.shuffle(acl.items)
             elif how == "reverse":
                 acl.items.reverse()
@@ -177,7 +190,15 @@ def oracle(ctx, kernel, meta):
             numbered = flat_notes(acl)
             r2 = random.Random(meta["seed"])
             how = meta["how"]
-            if how == "shuffle":
+            if how == "ungroup_assign":
+                acl.ungroup()
+                items = list(acl.items)
+                r2.shuffle(items)
+                acl.items = items
+                if any(it.__class__.__name__ == "AceGroup" for it in acl.items) or len(acl.items) != len(items):
+                    return {"what": "after ungroup(), assigning a permuted item list re-grouped the ACL "
+                                    f"({len(items)} items assigned, {len(acl.items)} top-level items now)"}
+            elif how == "shuffle":
                 r2.shuffle(acl.items)
             elif how == "reverse":
                 acl.items.reverse()
